@@ -247,6 +247,61 @@ def run(ctx, R):
                 "every branch of vertex_type_iter must exclude the root query type (found %d exclusions for 3 branches)" % n_excl)
     partition_table(C, R)
     implements_table(C, R)
+    every_exit_keeps_contexts(C, R)
+
+
+def every_exit_keeps_contexts(C, R):
+    """r8: the adapter contract gives back one outcome per input context. In the introspection adapter that holds because every
+    resolver arm ends in a contract helper (`resolve_property_with` / `resolve_neighbors_with`) fed with `contexts`. Any other exit
+    of resolve_property / resolve_neighbors - an early `return`, an arm that builds its own (e.g. empty) iterator - drops contexts:
+    a @fold or @optional over such an edge loses whole rows instead of getting an empty fold / null."""
+    R.rule("r8", "every exit of the introspection adapter's resolve_property / resolve_neighbors hands `contexts` to a contract helper")
+    HELP = ("resolve_property_with", "resolve_neighbors_with", "resolve_coercion_with", "resolve_coercion_using_schema")
+    fs = [f for f in C.fns if f.get("impl_trait") == "trustfall_core::interpreter::Adapter" and (f.get("self_ty") or "").startswith(AD + "SchemaAdapter")
+          and f["name"] in ("resolve_property", "resolve_neighbors")]
+    R.floor("r8", "SchemaAdapter resolvers taking contexts", len(fs), 2)
+    for f in fs:
+        ctx_bid = next((p.get("bid") for p in f["params"] if p.get("name") == "contexts"), None)
+        in_closure = set()
+        for clo in walk(f["body"]):
+            if clo.get("k") == "closure":
+                in_closure |= {id(x) for x in walk(clo["body"])}
+        bad = []
+
+        def leaf(n):
+            n = strip(n)
+            k = n.get("k")
+            if k == "block":
+                if "tail" in n:
+                    leaf(n["tail"])
+                else:
+                    bad.append((n, "a block without a value"))
+            elif k == "match":
+                for a in n["arms"]:
+                    if not is_panic_arm(C, a["body"]):
+                        leaf(a["body"])
+            elif k == "if":
+                leaf(n["then"])
+                if "els" in n:
+                    leaf(n["els"])
+            elif k == "call" and (n.get("callee") or "").endswith(HELP):
+                a0 = strip(n["args"][0]) if n.get("args") else {}
+                if not (a0.get("k") == "local" and (ctx_bid is None or a0.get("bid") == ctx_bid)):
+                    bad.append((n, "the helper is not given `contexts`"))
+            elif is_panic_arm(C, n):
+                pass
+            else:
+                bad.append((n, "`%s`" % ekey(n)[:60]))
+        leaf(f["body"])
+        for r_ in walk(f["body"]):
+            if r_.get("k") == "ret" and id(r_) not in in_closure:
+                if "e" in r_:
+                    leaf(r_["e"])           # `return helper(contexts, ..)` is as good as a tail call
+                else:
+                    bad.append((r_, "an early `return`"))
+        R.check(not bad, "r8", "exits/%s" % f["name"], C.loc((bad[0][0] if bad else f).get("sp")),
+                "SchemaAdapter::%s has an exit that does not go through a contract helper with `contexts` (%s): the input contexts are "
+                "dropped instead of each getting an outcome" % (f["name"], bad and bad[0][1]))
 
 
 def implements_table(C, R):
